@@ -47,8 +47,6 @@ NA = {
  "C13": "engine LX not built yet in this commit",
  "C14": "engine EF not built yet in this commit",
  "C15": "engine NM not built yet in this commit",
- "C16": "engine NI not built yet in this commit",
- "C17": "engine HT not built yet in this commit",
 }
 
 CLAIMED.update({
@@ -92,6 +90,14 @@ CLAIMED.update({
          "DESIGN.md §3.11 WEB, §4 C20",
          "Narrow claim: method test first, exactly one 4xx reply and return for every invalid parameter, 500 for a failed snapshot, the page only on the error-free path; the capture buffer strictly grows to min(2n, maxmem) until the dump fits; options are created per request and no package-level state is written, so concurrent requests cannot influence each other.",
          "Not decided: anything about the live runtime, goroutine churn or request interleavings (no static argument reaches them). RX inclusion of runtime.Stack's line shapes is added when the RX engine is present."),
+ "C16": ("taint (non-interference) analysis of palette strings over package internal; width-agreement and per-element writer path rules",
+         "DESIGN.md §3.11 NI, §4 C16",
+         "Colour strings are only inserted (concatenation, %s operands, writers), never compared, measured, indexed or converted; the measured widths are the lengths of exactly the two padded columns; both console writers test the very header they print with filter and match of opposite polarity (helper predicates are inlined) and write header then stack for every admitted element.",
+         "Not decided: the exact text of headers; terminal behaviour of the escape sequences."),
+ "C17": ("abstract evaluation of URL-building string expressions (scheme-fixed / colon-free lattice, fixpoint over html.go); typed-conversion and FuncMap rules; template lint with an HTML context tracker",
+         "DESIGN.md §3.8 HT, §4 C17",
+         "Every value a template function can return as trusted URL is empty, constant, scheme-fixed or query-escaped; trusted-markup conversions take constants or HTMLEscapeString results only; the FuncMap holds exactly the vetted producers; every template action sits in element content or a quoted attribute, URL attributes are whole-value or follow a constant scheme, no escaper-changing function is used; rows/headings are emitted unconditionally; the analysed constant is the shipped template; helper functions cannot panic on bounds.",
+         "Trusted base: html/template contextual escaping incl. URL normalisation of template.URL inside quoted attributes (an unescaped path segment after a fixed https://host/ prefix is therefore not a violation)."),
 })
 for k in list(CLAIMED): NA.pop(k, None)
 try:
